@@ -1,5 +1,6 @@
 import GrinVerif.Lemmas.KvProg
 import GrinVerif.Lemmas.KvSpace
+import GrinVerif.Lemmas.KvResize
 import GrinVerif.Lemmas.ChainStoreProg
 /-! # C18 — database batches are atomic, isolated and survive growth of the map
 
@@ -338,6 +339,116 @@ theorem needs_resize_grows (mapSize used chunk newSize : Nat) (hc : 0 < chunk)
   · simp [hr] at h
 
 example : needsResize 1048576 1000000 1048576 = (true, 2097152) := by decide
+
+
+/-! ## the resize protocol with its guard flags: one call of `maybe_resize`, every branch -/
+
+/-- In every reachable state of the resize protocol (any sequence of transactions opened and
+closed, calls of `maybe_resize` with any usage, polls of the waiter thread) and for every further
+call of `maybe_resize`, whatever branch it takes:
+* *guard busy* — the guard is held by a live waiter thread (not leaked) and the call changes nothing;
+* *not needed* / *immediate* — on return the guard `resize_checking` and the flag `resizing` are free;
+* *deferred* ("transactions are open") — exactly one waiter with the decided size is pending, it
+  holds guard and flag, and as soon as no transaction is open one poll of it resizes to that size
+  and frees both;
+and in general guard and flag are held exactly while a waiter is pending — no path leaks them. -/
+theorem resize_guard_released (mapSize chunk : Nat) (hc : 0 < chunk) (acts : List RAct) (used : Nat) :
+    let e := rrun (rinit mapSize chunk) acts
+    let r := maybeResize e used
+    (e.checking = e.pending.isSome ∧ e.resizing = e.pending.isSome) ∧
+    (r.2 = .guardBusy → e.pending.isSome = true ∧ r.1 = e) ∧
+    (r.2 = .notNeeded → r.1.checking = false ∧ r.1.resizing = false ∧ r.1.pending = none ∧ r.1.mapSize = e.mapSize) ∧
+    (∀ n, r.2 = .immediate n → r.1.checking = false ∧ r.1.resizing = false ∧ r.1.pending = none ∧
+        r.1.mapSize = n ∧ e.mapSize < n) ∧
+    (∀ n, r.2 = .deferred n → r.1.pending = some n ∧ r.1.checking = true ∧ r.1.resizing = true ∧
+        e.mapSize < n ∧ e.openTxs ≠ 0 ∧
+        ∀ e' : REnv, e'.pending = some n → e'.openTxs = 0 →
+          (waiterStep e').checking = false ∧ (waiterStep e').resizing = false ∧
+          (waiterStep e').pending = none ∧ (waiterStep e').mapSize = n) := by
+  intro e r
+  have inv : RInv e := rinv_run acts _ (rinv_init mapSize chunk hc)
+  have hr : r = maybeResize e used := rfl
+  refine ⟨⟨inv.guard, inv.flag⟩, ?_⟩
+  rcases maybeResize_cases e used with ⟨hck, heq⟩ | ⟨hck, hn, heq⟩ | ⟨hck, hn, ho, heq⟩ | ⟨hck, hn, ho, heq⟩
+  · rw [hr, heq]
+    refine ⟨fun _ => ⟨by rw [← inv.guard]; exact hck, rfl⟩, ?_, ?_, ?_⟩ <;> intros <;> simp_all
+  · obtain ⟨hp, hz⟩ := pending_none_of_unchecked e inv hck
+    rw [hr, heq]
+    refine ⟨?_, fun _ => ⟨rfl, hz, hp, rfl⟩, ?_, ?_⟩ <;> intros <;> simp_all
+  · rw [hr, heq]
+    refine ⟨?_, ?_, ?_, ?_⟩
+    · intro h; simp at h
+    · intro h; simp at h
+    · intro n h; simp at h
+    · intro n h
+      simp only [Branch.deferred.injEq] at h
+      refine ⟨by simp [h], rfl, rfl, by rw [← h]; exact needsResize_lt _ _ _ inv.chunk hn, ho, ?_⟩
+      intro e' hp' ho'
+      simp [waiterStep, hp', ho']
+  · obtain ⟨hp, _⟩ := pending_none_of_unchecked e inv hck
+    rw [hr, heq]
+    refine ⟨?_, ?_, ?_, ?_⟩
+    · intro h; simp at h
+    · intro h; simp at h
+    · intro n h
+      simp only [Branch.immediate.injEq] at h
+      exact ⟨rfl, rfl, hp, h, by rw [← h]; exact needsResize_lt _ _ _ inv.chunk hn⟩
+    · intro n h; simp at h
+
+/-- A resize that was postponed (the caller of `Store::batch()` held an iterator of its own, or
+the decision was simply not taken yet) happens at the next opportunity: in any reachable state
+in which no transaction is open and the usage is above the threshold for the current map, the
+next `Store::batch()` — the waiter thread finishing first if one is pending — leaves a strictly
+larger map with guard and flag free and no waiter pending. -/
+theorem postponed_resize_happens (mapSize chunk : Nat) (hc : 0 < chunk) (acts : List RAct) (used : Nat) :
+    let e := rrun (rinit mapSize chunk) acts
+    e.openTxs = 0 → (needsResize e.mapSize used e.chunk).1 = true →
+    let e2 := (maybeResize (waiterStep e) used).1
+    e.mapSize < e2.mapSize ∧ e2.checking = false ∧ e2.resizing = false ∧ e2.pending = none := by
+  intro e ho hr e2
+  have inv : RInv e := rinv_run acts _ (rinv_init mapSize chunk hc)
+  have invw : RInv (waiterStep e) := rinv_waiter e inv
+  -- after the waiter's poll nothing is pending and the map is at least as large, larger if it was pending
+  have hw : (waiterStep e).pending = none ∧ (waiterStep e).checking = false ∧ (waiterStep e).openTxs = 0 ∧
+      (waiterStep e).chunk = e.chunk ∧
+      ((waiterStep e).mapSize = e.mapSize ∨ e.mapSize < (waiterStep e).mapSize) := by
+    cases hp : e.pending with
+    | some n =>
+      have hlt := inv.grows n hp
+      simp [waiterStep, hp, ho, hlt]
+    | none =>
+      have hck : e.checking = false := by rw [inv.guard, hp]; rfl
+      simp [waiterStep, hp, ho, hck]
+  obtain ⟨hwp, hwc, hwo, hwk, hwm⟩ := hw
+  have he2 : e2 = (maybeResize (waiterStep e) used).1 := rfl
+  rcases maybeResize_cases (waiterStep e) used with ⟨hck, _⟩ | ⟨_, hn, heq⟩ | ⟨_, _, ho', _⟩ | ⟨_, hn, _, heq⟩
+  · rw [hwc] at hck; simp at hck
+  · -- not needed for the map the waiter left: then the waiter has enlarged it
+    rw [he2, heq]
+    rcases hwm with hm | hm
+    · rw [hm, hwk] at hn; rw [hn] at hr; simp at hr
+    · exact ⟨hm, rfl, (pending_none_of_unchecked _ invw hwc).2, hwp⟩
+  · exact absurd hwo ho'
+  · rw [he2, heq]
+    have := needsResize_lt _ _ _ invw.chunk hn
+    refine ⟨?_, rfl, rfl, hwp⟩
+    rcases hwm with hm | hm
+    · simp only; omega
+    · simp only; omega
+
+/-- non-vacuity: the caller holds an iterator of its own when the resize falls due: deferred; it
+commits and drops the iterator; the waiter resizes; the next batch finds guard and flag free; a
+batch issued while the waiter is still pending finds the guard busy -/
+example :
+    let e0 := rrun (rinit 1048576 1048576) [.openTx]
+    let r := maybeResize e0 1000000
+    r.2 = .deferred 2097152 ∧ r.1.checking = true ∧ r.1.resizing = true ∧
+    (maybeResize r.1 1010000).2 = .guardBusy ∧
+    rrun r.1 [.closeTx, .waiter] = rinit 2097152 1048576 ∧
+    (maybeResize (rrun r.1 [.closeTx, .waiter]) 1010000).2 = .notNeeded ∧
+    batchStart (rinit 1048576 1048576) 1000000 0 1 = rinit 2097152 1048576 ∧
+    (batchStart (rinit 1048576 1048576) 1000000 1 1).mapSize = 1048576 ∧
+    (settle (batchStart (rinit 1048576 1048576) 1000000 1 1)).mapSize = 2097152 := by decide
 
 /-! ## no operation fails for lack of space — also with fragmented free space -/
 
